@@ -16,7 +16,7 @@ func init() {
 		"non-trivial = not the all-valid document; distinct = (source hash, document)"
 }
 
-var c11Devs = []string{"REQUIRED_UNDECLARED_IGNORED", "ANYOF_MERGED_FIELD_TYPES", "ALLOF_FIRST_WINS", "COMPOSITE_DEF_REF_IS_ANY", "REF_UNTYPED_DEF_IS_ANY"}
+var c11Devs = []string{"LEN_BYTES", "REQUIRED_UNDECLARED_IGNORED", "ANYOF_MERGED_FIELD_TYPES", "ALLOF_FIRST_WINS", "COMPOSITE_DEF_REF_IS_ANY", "REF_UNTYPED_DEF_IS_ANY"}
 
 type c11Branch struct {
 	props []string
@@ -191,6 +191,10 @@ func c11(ctx *Ctx) {
 	}
 	runBehaviour(ctx, behaviour{Name: "composite", Cases: cases, Devs: c11Devs, Values: true,
 		DocGen: func(sc *SCase, m *refmodel.Model) []refmodel.Doc { return c11Docs(paths[sc.ID]) }})
+	// branches that constrain the SAME property with different keywords (both must hold) or with the same keyword and
+	// different values (both must hold; the current implementation keeps the first: listed finding ALLOF_FIRST_WINS)
+	runBehaviour(ctx, behaviour{Name: "overlap", Cases: c11Overlap(ctx.Level), Devs: c11Devs, Values: true,
+		DocFilter: func(sc *SCase, d *refmodel.Doc, tv refmodel.Verdict) bool { return !strings.Contains(d.Class, "type:") }})
 	ctx.Run.Assume("branches are object schemas over three properties with fixed, identical property schemas (no two branches constrain the same property differently in the quick tier)",
 		"documents spell integers without fraction/exponent")
 }
@@ -230,6 +234,61 @@ func c11Docs(path []any) []refmodel.Doc {
 					class = "base"
 				}
 				out = append(out, refmodel.Doc{V: doc, Text: jsonv.Text(doc), Class: class})
+			}
+		}
+	}
+	return out
+}
+
+func c11Overlap(level int) []SCase {
+	type pr struct {
+		name string
+		x, y J // the schemas the two branches give to property p
+	}
+	str, in, nu := "string", "integer", "number"
+	pairs := []pr{
+		{"minLength|maxLength", J{"type": str, "minLength": 2}, J{"type": str, "maxLength": 3}},
+		{"maxLength|pattern", J{"type": str, "maxLength": 3}, J{"type": str, "pattern": "^a"}},
+		{"minimum|maximum", J{"type": in, "minimum": 5}, J{"type": in, "maximum": 9}},
+		{"maximum|multipleOf", J{"type": in, "maximum": 9}, J{"type": in, "multipleOf": 3}},
+		{"exclusiveMinimum|maximum(number)", J{"type": nu, "exclusiveMinimum": 0.5}, J{"type": nu, "maximum": 2.5}},
+		{"minItems|maxItems", J{"type": "array", "items": J{"type": in}, "minItems": 1}, J{"type": "array", "items": J{"type": in}, "maxItems": 2}},
+		{"plain|minLength", J{"type": str}, J{"type": str, "minLength": 2}},
+		{"minLength|minLength", J{"type": str, "minLength": 2}, J{"type": str, "minLength": 4}},
+		{"maximum|maximum", J{"type": in, "maximum": 9}, J{"type": in, "maximum": 5}},
+	}
+	var out []SCase
+	for _, comp := range []string{"allOf", "anyOf"} {
+		for _, p := range pairs {
+			for _, order := range []int{0, 1} {
+				x, y := p.x, p.y
+				if order == 1 {
+					x, y = y, x
+				}
+				for _, ref := range []int{0, 1, 2} {
+					if level == 0 && ref == 2 {
+						continue
+					}
+					bx := J{"type": "object", "properties": J{"p": space.Clone(x), "q": J{"type": "boolean"}}}
+					by := J{"type": "object", "properties": J{"p": space.Clone(y)}, "required": A{"p"}}
+					defs := J{}
+					var branches A
+					for i, b := range []J{bx, by} {
+						if ref == 2 || (ref == 1 && i == 0) {
+							n := fmt.Sprintf("B%d", i)
+							defs[n] = b
+							branches = append(branches, J{"$ref": "#/$defs/" + n})
+						} else {
+							branches = append(branches, b)
+						}
+					}
+					root := J{"type": "object", "properties": J{"c": J{comp: branches}, "l": J{"type": "array", "items": J{comp: branches}}}, "required": A{"c"}}
+					if len(defs) > 0 {
+						root["$defs"] = defs
+					}
+					name := fmt.Sprintf("%s/%s/order=%d/ref=%d", comp, p.name, order, ref)
+					out = append(out, SCase{ID: "C11/overlap/" + name, Schema: root, Cfg: baseCfg(), Axes: map[string]string{"pos": "overlap", "leaf": name, "composite": comp}})
+				}
 			}
 		}
 	}
